@@ -100,6 +100,31 @@ def make_files(rng, ctx):
         f3['records'] = recs[:24]
         f3['label'] = f'v3 scenario content chunks={[len(c) for c in f3["spec"].chunks]}'
         files.append(f3)
+    # scale ladder: dumps larger than any buffer a reader may use (~100 KB); their cut offsets are sampled around the
+    # powers of two (a block-wise reader misbehaves at its block edges) and at random
+    big_evs = []
+    t0 = 1000
+    while len(big_evs) < ctx.pick(1500, 6000):
+        part = gen.gen_scenario_events(rng, n_scenarios=8)
+        part = H.materialize([(e.tid, (e.eventid, e.func_qualifier, e.data)) for e in part], t0=t0)
+        t0 = part[-1].timestamp + 7
+        big_evs += part
+    big_recs = gen.events_to_records(big_evs)
+    entries = [(tid, 100 * (k + 1), b'proc%d' % k, b'') for k, tid in enumerate((11, 12, 13))]
+    bigs = [{'kind': 'v2', 'entries': entries, 'pad': 8, 'records': big_recs, 'data': wire.v2_file(entries, 8, big_recs),
+             'label': f'v2 large dump ({len(big_recs)} records)'}]
+    f3 = gen.gen_v3(rng, n=3, chunks=gen.split_chunks(rng, big_recs, 3))
+    f3['records'] = big_recs
+    f3['label'] = f'v3 large dump ({len(big_recs)} records, chunks={[len(c) for c in f3["spec"].chunks]})'
+    bigs.append(f3)
+    for f in bigs:
+        n = len(f['data'])
+        offs = {n, n - 1, n - 63, n - 64, n - 65}
+        for b in (4096, 8192, 16384, 32768, 65536, 131072, 262144):
+            offs |= {b + d for d in (-65, -64, -63, -33, -32, -1, 0, 1, 31, 32, 33, 63, 64, 65) if 0 <= b + d <= n}
+        offs |= {rng.randrange(n + 1) for _ in range(ctx.pick(24, 400))}
+        f['offsets'] = sorted(offs)
+        files.append(f)
     # raw-bytes files: arbitrary record content (event pipelines only make sense, traces still must be a prefix)
     f = gen.gen_v2(rng, m=ctx.pick(6, 24), n=2)
     f['label'] = 'v2 arbitrary record bytes'
@@ -162,6 +187,18 @@ def cli_checks(res, f, fi, offsets, tmpdir, fulls):
                           f'{r.exception!r}', {'file': f['data'], 'cmd': cmd})
             continue
         full_lines = r.stdout.split('\n')[:-1]
+        # -c counts items; a callstack item is a header line plus one line per frame
+        sizes = None
+        if cmd[0] == 'callstacks':
+            from pykdebugparser.pykdebugparser import PyKdebugParser
+            try:
+                sizes = [len(x.split('\n')) for x in PyKdebugParser().formatted_callstacks(io.BytesIO(f['data']))]
+            except Exception:
+                sizes = None
+            if sizes is None or sum(sizes) != len(full_lines):
+                res.violation('c06-cli-differs-from-api', f'{f["label"]}: `callstacks` prints {len(full_lines)} lines, the API '
+                              f'formats {sizes and sum(sizes)} lines', {'file': f['data'], 'cmd': cmd})
+                continue
         if '--show-tid' in cmd and r.stdout != ''.join(l + '\n' for l in fulls[api[cmd[0]]]):
             res.violation('c06-cli-differs-from-api', f'{f["label"]}: `{" ".join(cmd)}` prints {len(full_lines)} lines that '
                           f'are not the {len(fulls[api[cmd[0]]])} formatted lines of the API, in order',
@@ -186,7 +223,7 @@ def cli_checks(res, f, fi, offsets, tmpdir, fulls):
                 # on error click prints nothing more to stdout; output lines are those printed before the stop
                 if r.exception is not None and not isinstance(r.exception, SystemExit):
                     res.count('cli_stopped_with_error')
-                limit = len(full_lines) if c < 0 else c
+                limit = len(full_lines) if c < 0 else c if sizes is None else sum(sizes[:c])
                 if lines != full_lines[:len(lines)] or len(lines) > limit:
                     res.violation('c06-cli-count-changes-lines', f'{f["label"]} cut at {k}: `{" ".join(cmd)} -c {c}` '
                                   f'printed {len(lines)} lines that are not the first lines of the unlimited '
@@ -216,7 +253,9 @@ def run(ctx):
                                   f'({exc!r}), expected {len(f["records"])}', {'file': f['data']})
             res.count('files')
             res.count('file_bytes', len(f['data']))
-            offsets = [k for k in range(len(f['data']) + 1) if ctx.mine(k)]
+            offsets = [k for i, k in enumerate(f.get('offsets', range(len(f['data']) + 1))) if ctx.mine(i if 'offsets' in f else k)]
+            if 'offsets' in f:
+                res.count('large_dump_cuts', len(offsets))
             for k in offsets:
                 for name, (make, key) in pl.items():
                     if name == 'formatted_traces_color' and k % 5:
@@ -241,11 +280,13 @@ def run(ctx):
                         'for v3 the prefix claim is on events/traces/lines of events (logs come after all sections)']
     res.require('cuts_executed', 50)
     res.require('cuts_under_step_clock', 10)
+    res.require('large_dump_cuts', 10)
     return res
 
 
 def finalize(res):
-    res.exhaustive = True   # every offset of every generated file was executed (files themselves are sampled)
+    res.exhaustive = True   # every offset of every small generated file was executed (the files themselves and the
+    # offsets of the two ~100 KB dumps of the scale rung are sampled)
     res.require('stopped_with_error', 1)
     res.require('stopped_normally', 1)
     res.require('cli_runs', 1)
